@@ -1,5 +1,7 @@
 import RgVerif.Lemmas.LineBufferFill
 import RgVerif.Lemmas.BinaryOut
+import RgVerif.Lemmas.ReadByLineClean
+import RgVerif.Lemmas.CoreSliceContract
 /-
 C14 — binary data never reaches the output unless text mode is requested.
 -/
@@ -112,6 +114,120 @@ theorem C14_stdout (det : Det) (hn : det ≠ .none) (evs : List Ev)
   apply feed_no_nul det evs {} [] (by simp) (by simp) hq _ hn
   intro h pre ev post hs h0
   simpa using hc h pre ev post hs h0
+
+/-! ### the searcher contract, derived from the model of `Core` and `ReadByLine` (reader strategy) -/
+
+/-- what the printer model is told for a callback of the searcher model -/
+def toEv : Searcher.Event → Option Ev
+  | .matched ln off bs => some (.matched off (ln.getD 0) bs)
+  | .context _ ln off bs => some (.context off (ln.getD 0) bs)
+  | .contextBreak => some .ctxBreak
+  | .binaryData off => some (.binaryData off)
+  | .begin => none
+  | .finish _ _ => none
+
+/-- **Reader strategy: the contract holds.**  For every configuration (contexts, passthru,
+inversion, stop-on-nonmatch), every matcher, every sink script, every input, read script and
+capacity: no line that `ReadByLine` over `Core` hands to the sink holds the binary byte
+(`Quit(b)`, or `Convert(b)` with `b` ≠ terminator).  Every delivered line is a slice of some
+`buffer()` (`matchByLine_ext`), and `buffer()` never holds the byte (`linebuffer_hides_byte`). -/
+theorem reader_delivers_clean (cfg : Searcher.Config) (m : Searcher.MatcherI) (σ : Searcher.Script)
+    (lbcfg : LineBuffer.Config) (b : Nat)
+    (hb : lbcfg.binary = .quit b ∨ (lbcfg.binary = .convert b ∧ b ≠ lbcfg.lineterm)) (rdr : Reader) :
+    ∀ ev ∈ (Searcher.readByLine cfg m σ lbcfg rdr).events, b ∉ ev.lineBytes :=
+  Searcher.readByLine_clean cfg m σ lbcfg b hb rdr
+
+/-- **Reader strategy end to end (model of searcher + roll buffer + printer): no NUL is written.**
+Whatever the sink script — in particular the printer's own answers — the standard printer fed
+with the callbacks of a `ReadByLine` run over a NUL-hiding roll buffer writes no NUL. -/
+theorem reader_stdout_no_nul (cfg : Searcher.Config) (m : Searcher.MatcherI) (σ : Searcher.Script)
+    (lbcfg : LineBuffer.Config) (hlt : 0 ≠ lbcfg.lineterm)
+    (det : Det) (hd : (det = .quit ∧ lbcfg.binary = .quit 0) ∨ (det = .convert ∧ lbcfg.binary = .convert 0))
+    (rdr : Reader) (path : Bytes) (hp : 0 ∉ path) :
+    0 ∉ render path (stdRun det ((Searcher.readByLine cfg m σ lbcfg rdr).events.filterMap toEv)) := by
+  have hb : lbcfg.binary = .quit 0 ∨ (lbcfg.binary = .convert 0 ∧ 0 ≠ lbcfg.lineterm) := by
+    cases hd with
+    | inl h => exact Or.inl h.2
+    | inr h => exact Or.inr ⟨h.2, hlt⟩
+  have hclean : Clean ((Searcher.readByLine cfg m σ lbcfg rdr).events.filterMap toEv) := by
+    intro ev hev
+    rw [List.mem_filterMap] at hev
+    obtain ⟨e, he, hte⟩ := hev
+    have hc := reader_delivers_clean cfg m σ lbcfg 0 hb rdr e he
+    cases e <;> simp [toEv] at hte <;> subst hte <;> simp_all [Ev.bytes, Searcher.Event.lineBytes]
+  have hn : det ≠ .none := by
+    cases hd with
+    | inl h => rw [h.1]; decide
+    | inr h => rw [h.1]; decide
+  apply C14_stdout det hn _ (fun _ => hclean) _ path hp
+  intro _ pre ev post _ h0
+  exact absurd h0 (hclean ev (by simp_all))
+
+/-! ### the searcher contract for the slice strategy (`SliceByLine` over `Core`) -/
+
+/-- **Slice strategy, `Quit(b)`: no delivered line holds `b`** (every `sink_*` runs `detect_binary`
+on the line first and stops instead of delivering) — every configuration, matcher, sink script. -/
+theorem slice_delivers_clean (cfg : Searcher.Config) (m : Searcher.MatcherI) (σ : Searcher.Script)
+    (inp : Bytes) (b : Nat) (hb : cfg.binary = .quit b) :
+    ∀ ev ∈ (Searcher.sliceByLine cfg m σ inp).events, b ∉ ev.lineBytes :=
+  (Searcher.sliceByLine_SI cfg m σ inp b (by rw [hb]; rfl)).clean (by rw [hb]; rfl)
+
+/-- **Slice strategy, `Quit(b)` or `Convert(b)`: a line holding `b` is delivered only after
+`binary_data` was reported** (the printer's guard then drops it). -/
+theorem slice_delivers_guarded (cfg : Searcher.Config) (m : Searcher.MatcherI) (σ : Searcher.Script)
+    (inp : Bytes) (b : Nat) (hb : cfg.binary = .quit b ∨ cfg.binary = .convert b) :
+    Searcher.GuardedL b (Searcher.sliceByLine cfg m σ inp).events :=
+  (Searcher.sliceByLine_SI cfg m σ inp b (by cases hb with | inl h => rw [h]; rfl | inr h => rw [h]; rfl)).guarded
+
+/-- **Slice strategy end to end (model of `SliceByLine` + `Core` + printer): no NUL is written.** -/
+theorem slice_stdout_no_nul (cfg : Searcher.Config) (m : Searcher.MatcherI) (σ : Searcher.Script)
+    (inp : Bytes) (det : Det)
+    (hd : (det = .quit ∧ cfg.binary = .quit 0) ∨ (det = .convert ∧ cfg.binary = .convert 0))
+    (path : Bytes) (hp : 0 ∉ path) :
+    0 ∉ render path (stdRun det ((Searcher.sliceByLine cfg m σ inp).events.filterMap toEv)) := by
+  have hn : det ≠ .none := by
+    cases hd with
+    | inl h => rw [h.1]; decide
+    | inr h => rw [h.1]; decide
+  have hbytes : ∀ (e : Searcher.Event) (e' : Ev), toEv e = some e' → e'.bytes = e.lineBytes ∧
+      (e.isBD = true ↔ e'.isBinaryData = true) := by
+    intro e e' h
+    cases e <;> simp [toEv] at h <;> subst h <;>
+      simp [Ev.bytes, Searcher.Event.lineBytes, Searcher.Event.isBD, Ev.isBinaryData]
+  apply C14_stdout det hn _ _ _ path hp
+  · intro hq
+    have hb : cfg.binary = .quit 0 := by
+      cases hd with
+      | inl h => exact h.2
+      | inr h => rw [h.1] at hq; cases hq
+    intro ev hev
+    rw [List.mem_filterMap] at hev
+    obtain ⟨e, he, hte⟩ := hev
+    rw [(hbytes e ev hte).1]
+    exact slice_delivers_clean cfg m σ inp 0 hb e he
+  · intro _ pre ev post hsplit h0
+    have hg := slice_delivers_guarded cfg m σ inp 0
+      (by cases hd with | inl h => exact Or.inl h.2 | inr h => exact Or.inr h.2)
+    rw [List.filterMap_eq_append_iff] at hsplit
+    obtain ⟨l1, l2, hl, h1, h2⟩ := hsplit
+    rw [List.filterMap_eq_cons_iff] at h2
+    obtain ⟨m1, a, m2, hl2, hnone, ha, _⟩ := h2
+    have hsrc : (Searcher.sliceByLine cfg m σ inp).events = (l1 ++ m1) ++ a :: m2 := by
+      rw [hl, hl2]; simp
+    obtain ⟨e, hme, hbd⟩ := hg (l1 ++ m1) a m2 hsrc (by rw [← (hbytes a ev ha).1]; exact h0)
+    simp only [List.mem_append] at hme
+    cases hme with
+    | inl hin =>
+      -- a reported `binary_data` survives `toEv`
+      cases e with
+      | binaryData off =>
+        refine ⟨.binaryData off, ?_, rfl⟩
+        rw [← h1, List.mem_filterMap]
+        exact ⟨_, hin, rfl⟩
+      | _ => simp [Searcher.Event.isBD] at hbd
+    | inr hin =>
+      have := hnone e hin
+      cases e <;> simp [toEv] at this <;> simp [Searcher.Event.isBD] at hbd
 
 /-! ### which detection a file gets (`hiargs.rs`, `search.rs`) -/
 
